@@ -98,6 +98,12 @@ WithUnit(op, i, t) == LET a == Pool[i] w == Units[t] IN
   ev' = Ev(op, i, t, 0, "ok", IF op = "qdivu" THEN DDiv(Dim(a.u), Dim(w)) ELSE DMul(Dim(a.u), Dim(w)), a.k = "Decimal",
            IF op = "qdivu" THEN UDiv(a.u, w) ELSE UMul(a.u, w),
            [r |-> a.m, pv |-> IF op = "qdivu" THEN PAdd(USize(a.u), PNeg(USize(w))) ELSE PAdd(USize(a.u), USize(w))], FALSE)
+\* a prefix applied to a (possibly already prefixed) unit, written on the left (side 1) or on the right (side 2):
+\* same-base exponents add; `dec` = TRUE stands for the binary base, FALSE for the decimal one; e = 0 is the
+\* identity prefix, which must be neutral
+PrefixOnUnit(t, binary, e, side) == LET w == Units[t]
+                                      r == IF binary THEN [w EXCEPT !.p2 = @ + e] ELSE [w EXCEPT !.p10 = @ + e] IN
+  ev' = Ev("pfx", t, side, e, "ok", Dim(w), binary, r, [r |-> <<1, 1>>, pv |-> USize(r)], FALSE)
 \* conversion to a unit of another dimension must be rejected; of the same dimension it keeps the physical value
 InUnit(i, t) == LET a == Pool[i] w == Units[t] IN
   ev' = IF Dim(a.u) # Dim(w) THEN Ev("in_unit", i, t, 0, "reject", DZero, FALSE, w, NoPhys, FALSE)
